@@ -279,3 +279,39 @@ def run(ctx):
     check_aggregate(ctx, model)
     check_collect(ctx, model)
     check_pool_side(ctx, model)
+    check_paging_forwarded(ctx, model)
+    # Q7: the take-rate switches of the collector can each be changed on their own ("nothing otherwise" once switched off)
+    from .common import check_independent_optional_updates
+    uv = ctx.view("fee_collector::commands::update_config", "C10-Q7")
+    if uv is not None:
+        n = check_independent_optional_updates(ctx, "C10-Q7", uv, "fee_collector::state::CONFIG", fields={"take_rate", "take_rate_dao_address", "is_take_rate_active", "fee_distributor", "pool_router", "pool_factory", "vault_factory"})
+        ctx.floor("C10-Q7", "independently updatable collector settings", n, 7)
+
+
+def check_paging_forwarded(ctx, model):
+    """Q5 (page size): the registry listings the collector asks the factories for (Vaults / Pairs) carry the start_after and
+    limit of the FactoryType the caller selected -- in the collect helper and in aggregate_fees alike. A constant (None)
+    limit falls back to the factory's default page of 10 while forward_fees asks for 30: pools beyond the tenth are never
+    collected."""
+    n = 0
+    for p in sorted(model.all_paths("fee_collector")):
+        if "::tests::" in p or "::migrations::" in p:
+            continue
+        v = model.view(p)
+        for b, i, s_ in v.iter_stmts():
+            rv = s_["rv"]
+            if rv["r"] != "agg" or rv.get("variant") not in ("Vaults", "Pairs") or not rv.get("adt", "").endswith("QueryMsg"):
+                continue
+            f = dict(zip(rv["fields"], rv["ops"]))
+            n += 1
+            ctx.fn_seen.add(p)
+            bad = []
+            for name in ("start_after", "limit"):
+                os_ = v.origins_of_operand(f[name], at=(b, i))
+                # FactoryType variant name and QueryMsg variant name pair up: Vault -> Vaults, Pool -> Pairs
+                want_variant = "#Vault" if rv["variant"] == "Vaults" else "#Pool"
+                if not (os_ and all(o.kind == "param" and tuple(o.proj[-2:]) == (want_variant, name) for o in os_)):
+                    bad.append("%s from %s" % (name, sorted(map(repr, os_))))
+            ctx.ob("C10-Q5", "%s|%s|paging-forwarded" % (p, rv["variant"]), not bad,
+                   "QueryMsg::%s paging fields: %s" % (rv["variant"], "; ".join(bad) if bad else "start_after and limit are the selected FactoryType's own"), v.where(b))
+    ctx.floor("C10-Q5", "factory listing queries built by the collector", n, 4)
